@@ -115,5 +115,5 @@ fn main() {
         .set("refused_at_construction", refused)
         .set("constructed", built)
         .set("exhaustive", true);
-    ctx.finish("exploration", cov, &["feature set: critical-section only (no std, no spin-lock)"]);
+    ctx.finish("exploration", cov, &[if has_mutex { "feature set: critical-section + spin-lock (no std)" } else { "feature set: critical-section only (no std, no spin-lock)" }]);
 }
